@@ -225,3 +225,138 @@ class NativeSlave:
                 w.append((p.rdata.data, data))
                 self.pendr[pi] = (addr, data)
         return w
+
+
+class NativeFifoSlave:
+    """Stream-style native slave: the memory side as a frontend sees it when its port is the USER side of a buffered port of the
+    repository itself (LiteDRAMNativePortCDC, the width converters, LiteDRAMNativePort FIFOs): every channel is an ordinary
+    valid/ready stream backed by a queue.
+
+    * cmd.ready follows a generated stall schedule while fewer than qmax commands are queued;
+    * wdata.ready is high whenever the write-data queue has room (depth wdepth, optional stall schedule) - WHETHER OR NOT a write
+      command has been accepted yet (this is what the pulse-style NativeSlave never shows);
+    * rdata.valid is held with the head of the read-data queue until rdata.ready;
+    * the backend performs the queued commands in acceptance order (over all served ports), at most one per cycle, a write as soon as
+      its latency has elapsed and a data beat is queued, a read as soon as its latency has elapsed and the read-data queue has room;
+    * no beat can be lost by construction; write-data beats that no write command ever consumes are reported through `lost`
+      as ("W-extra", t, port, None) by `finish()` (called by idle() users at the end of a run).
+    Same interface and log format as NativeSlave."""
+    WMIN = 1
+    RMIN = 2
+
+    def __init__(self, ports, *, ready_pattern=None, wlat=None, rlat=None, qmax=8, init=None, bg=None, apply_lost=False,
+                 wdepth=4, rdepth=4, wready_pattern=None):
+        self.ports = list(ports)
+        self.ready = [schedule_iter(ready_pattern) for _ in self.ports]
+        self.wready = [schedule_iter(wready_pattern) for _ in self.ports]
+        self.wlat = wlat or [self.WMIN]
+        self.rlat = rlat or [self.RMIN]
+        self.nw = self.nr = 0
+        self.qmax = max(1, qmax)
+        self.wdepth, self.rdepth = max(1, wdepth), max(1, rdepth)
+        self.q = []                 # (port index, we, addr, due) in acceptance order
+        self.wq = [[] for _ in self.ports]      # queued write-data beats (data, we)
+        self.rq = [[] for _ in self.ports]      # queued read-data words (addr, data)
+        self.mem = dict(init or {})
+        self.bg = bg or (lambda addr, width: (addr * 0x9E3779B1 + 0x7F4A7C15) & ((1 << width) - 1))
+        self.lost = []
+        self.log = []
+        self.drive_ready = [0] * len(self.ports)
+        self.drive_wready = [0] * len(self.ports)
+        self.drive_rvalid = [None] * len(self.ports)
+        self.pendw = self.pendr = {}            # (attribute compatibility with NativeSlave users; always empty)
+        self.max_wq_ahead = 0                   # most data beats queued while no write command was queued (for the evidence)
+
+    def read_mem(self, addr, width):
+        v = self.mem.get(addr)
+        return self.bg(addr, width) if v is None else v
+
+    def idle(self):
+        return not self.q and not any(self.rq)
+
+    def orphan_beats(self):
+        """write-data beats queued although no write command is queued: legal only transiently (data may lead its command)"""
+        return [(pi, len(x)) for pi, x in enumerate(self.wq) if x and not any(c[0] == pi and c[1] for c in self.q)]
+
+    def cycle(self, sim, t):
+        get = sim.get
+        w = []
+        # ---- handshakes of this cycle (what was driven for it is in drive_*) ----
+        for pi, p in enumerate(self.ports):
+            if self.drive_rvalid[pi] is not None and get(p.rdata.ready):
+                addr, data = self.rq[pi].pop(0)
+                self.log.append(("R", t, pi, addr, data))
+            if p.mode != "read" and self.drive_wready[pi] and get(p.wdata.valid):
+                self.wq[pi].append((get(p.wdata.data), get(p.wdata.we)))
+                if not any(c[0] == pi and c[1] for c in self.q):
+                    self.max_wq_ahead = max(self.max_wq_ahead, len(self.wq[pi]))
+            if self.drive_ready[pi] and get(p.cmd.valid):
+                we = get(p.cmd.we)
+                addr = get(p.cmd.addr)
+                if we:
+                    lat = max(self.WMIN, self.wlat[self.nw % len(self.wlat)])
+                    self.nw += 1
+                else:
+                    lat = max(self.RMIN, self.rlat[self.nr % len(self.rlat)])
+                    self.nr += 1
+                self.q.append((pi, we, addr, t + lat))
+                self.log.append(("C", t, pi, we, addr))
+        # ---- backend: one command per cycle, in acceptance order ----
+        if self.q and self.q[0][3] <= t:
+            pi, we, addr, due = self.q[0]
+            p = self.ports[pi]
+            if we:
+                if self.wq[pi]:
+                    d, be = self.wq[pi].pop(0)
+                    old = self.read_mem(addr, p.data_width)
+                    for b in range(p.data_width // 8):
+                        if (be >> b) & 1:
+                            old = (old & ~(0xff << (8 * b))) | (d & (0xff << (8 * b)))
+                    self.mem[addr] = old
+                    self.log.append(("W", t, pi, addr, d, be, 1))
+                    self.q.pop(0)
+            elif len(self.rq[pi]) < self.rdepth:
+                self.rq[pi].append((addr, self.read_mem(addr, p.data_width)))
+                self.q.pop(0)
+        # ---- drive next cycle ----
+        for pi, p in enumerate(self.ports):
+            rdy = next(self.ready[pi]) and len(self.q) < self.qmax
+            self.drive_ready[pi] = 1 if rdy else 0
+            w.append((p.cmd.ready, self.drive_ready[pi]))
+            if p.mode != "read":
+                wr = next(self.wready[pi]) and len(self.wq[pi]) < self.wdepth
+                self.drive_wready[pi] = 1 if wr else 0
+                w.append((p.wdata.ready, self.drive_wready[pi]))
+            if p.mode != "write":
+                if self.rq[pi]:
+                    self.drive_rvalid[pi] = self.rq[pi][0]
+                    w.append((p.rdata.valid, 1))
+                    w.append((p.rdata.data, self.rq[pi][0][1]))
+                else:
+                    self.drive_rvalid[pi] = None
+                    w.append((p.rdata.valid, 0))
+        return w
+
+    def finish(self, t):
+        """end of a run: data beats that no command consumed"""
+        for pi, n in self.orphan_beats():
+            self.lost.append(("W-extra", t, pi, None))
+
+
+def native_slave(ports, sl, **kw):
+    """slave described by a stimulus dict: style 'pulse' (default) = NativeSlave (what the bare crossbar shows), style 'fifo' =
+    NativeFifoSlave (what the user side of a buffered / clock-domain-crossing port shows)."""
+    sl = sl or {}
+    args = dict(ready_pattern=sl.get("ready"), wlat=sl.get("wlat"), rlat=sl.get("rlat"), qmax=sl.get("qmax", 8))
+    args.update(kw)
+    if sl.get("style") == "fifo":
+        return NativeFifoSlave(ports, wdepth=sl.get("wdepth", 4), rdepth=sl.get("rdepth", 4), wready_pattern=sl.get("wready"), **args)
+    return NativeSlave(ports, **args)
+
+
+def slave_style(draw, st):
+    """extra keys of a slave description drawn by the stimulus strategies (one place so that all frontends see the same envelope)"""
+    if draw(st.integers(0, 3)):
+        return {}
+    return dict(style="fifo", wdepth=draw(st.sampled_from([1, 2, 4, 16])), rdepth=draw(st.sampled_from([1, 2, 4, 16])),
+                wready=draw(st.sampled_from([None, None, [2, 1], [1, 3], [0, 9, 5, 2]])))
